@@ -1,4 +1,5 @@
 import GohtVerif.Model.Exec
+import GohtVerif.Model.Proxy
 /-! Line-protocol driver: one request per line, fields hex-encoded; one reply line per request. -/
 open GL
 
@@ -114,6 +115,80 @@ def showRender (r : RenderObs) : String :=
   | some (.helper f) => s!"ERR {r.writes.length} helper {toHex f}"
   | some (.model m) => s!"MODEL {m}"
 
+namespace PxDrv
+open Px
+
+def parseRng (s : String) : Rng :=
+  match (s.splitOn ".").map String.toInt! with
+  | [a, b, c, d] => ⟨a, b, c, d⟩
+  | _ => ⟨0, 0, 0, 0⟩
+
+def showRng (r : Rng) : String := s!"{r.sl}:{r.sc}-{r.el}:{r.ec}"
+def str (s : GoStr) : String := String.fromUTF8! (ByteArray.mk s.toArray)
+
+def parseOp (f : String) : Option Op :=
+  match f.splitOn "," with
+  | ["o", u, t, v] => some (.dopen (hxu u) (hxu t) v.toInt!)
+  | ["c", u, t, v] => some (.change (hxu u) (hxu t) v.toInt!)
+  | ["x", u] => some (.close (hxu u))
+  | ["s", u, t] => some (.save (hxu u) (hxu t))
+  | ["m", m] => some (.showmsg (hxu m))
+  | ["d", u, ds] =>
+    some (.pubdiag (hxu u) ((splitNE ds "/").filterMap fun d =>
+      match d.splitOn "|" with
+      | [r, m] => some { r := parseRng r, src := [99, 111, 109, 112, 105, 108, 101, 114], msg := hxu m }
+      | _ => none))
+  | ["q", m, u, l, c, nl, detail, ans] =>
+    some (.req m (hxu u) l.toInt! c.toInt! ((splitNE ans "/").filterMap fun a =>
+      match a.splitOn "|" with
+      | [au, r] => some { uri := hxu au, r := parseRng r }
+      | _ => none) (nl == "1") (hxu detail))
+  | _ => none
+
+def showLocs (ls : Option (List Loc)) : String :=
+  match ls with
+  | none => "nil"
+  | some ls => "[" ++ ",".intercalate (ls.map fun l => s!"{str l.uri}@{showRng l.r}") ++ "]"
+
+def showRngs (rs : Option (List Rng)) : String :=
+  match rs with
+  | none => "nil"
+  | some rs => "[" ++ ",".intercalate (rs.map showRng) ++ "]"
+
+def showEv : Ev → String
+  | .dOpen u v lang t => s!"D didOpen {str u} v={v} lang={str lang} text={toHex t}"
+  | .dChange u v t => s!"D didChange {str u} v={v} id={str u} changes=full={toHex t}"
+  | .dClose u => s!"D didClose {str u}"
+  | .dSave u t => s!"D didSave {str u} text={match t with | some t => toHex t | none => "-"}"
+  | .dReq m u l c => s!"D {m} {str u} pos={l}:{c}"
+  | .dReqDoc m u => if m == "CodeAction" then s!"D {m} {str u} range=0:0-0:0" else s!"D {m} {str u}"
+  | .eDiag u ds => s!"E diag {str u} [" ++ ",".intercalate (ds.map fun d => s!"{showRng d.r}={str d.src}={toHex d.msg}") ++ "]"
+  | .eMsg m => s!"E msg {toHex m}"
+  | .rNotify w =>
+    match w with
+    | "change-error" => "R change err=true"
+    | "pubdiag-error" => "R pubdiag err=true"
+    | w => s!"R {w} err=false"
+  | .rLocs m ls => s!"R {m} {showLocs ls}"
+  | .rDecl ls => "R Declaration [" ++ ",".intercalate (ls.map fun (u, a, b) => s!"{str u}@{showRng a}@{showRng b}") ++ "]"
+  | .rRange m r => s!"R {m} {match r with | some r => showRng r | none => "nil"}"
+  | .rRanges m rs => s!"R {m} {showRngs rs}"
+  | .rFlag m b => s!"R {m} nil={b} err=false"
+  | .rCount m n => s!"R {m} n={n} err=false"
+  | .rCompletion none => "R Completion nil"
+  | .rCompletion (some items) =>
+    "R Completion [" ++ ",".intercalate (items.map fun (te, adds) =>
+      (match te with | some r => showRng r | none => "-") ++ "+" ++
+        ";".intercalate (adds.map fun (r, t) => s!"{showRng r}={toHex t}")) ++ "]"
+
+/-- `P <op>;<op>;…` → all events, separated by `|` -/
+def doProxy (ops : String) : String :=
+  let os := (splitNE ops ";").filterMap parseOp
+  let (_, evs) := run realComp {} os
+  "|".intercalate (evs.map showEv)
+
+end PxDrv
+
 def handle (line : String) : String :=
   match line.trimAscii.toString.splitOn " " with
   | ["L", input] => doLex (hx input)
@@ -121,8 +196,10 @@ def handle (line : String) : String :=
   | ["C", input] => doCompile (hx input)
   | ["C"] => doCompile []
   | "H" :: rest => doHelper rest
+  | ["P", ops] => PxDrv.doProxy ops
   | "R" :: file :: name :: rest => showRender (renderTop (hx file) (hx name) (parseEnv rest))
   | _ => "BAD"
+
 
 /-- the last parsed file is kept, so that many renders of one file parse it once -/
 partial def loop (h : IO.FS.Stream) (out : IO.FS.Stream) (cacheKey : String) (cache : Option (List Tmpl)) : IO Unit := do
